@@ -32,7 +32,8 @@ def gen_docs(seed, tier):
         yield "enum-mux-orders", comps
     # BYTE-SIZE structures with explicitly positioned members in every listing order; terminated MIN-MAX objects with
     # values around the termination sequence (fixed values: FIXED_VALUES[name])
-    for fam, it in (("enum-struct-layout-orders", G.enum_struct_layout_orders()), ("enum-minmax-terminated", G.enum_minmax_terminated())):
+    for fam, it in (("enum-struct-layout-orders", ((c, v) for c, v, _ in G.enum_struct_layout_orders())),
+                    ("enum-minmax-terminated", G.enum_minmax_terminated())):
         seen, comps = {}, []
         for c, v in it:
             if c.name not in seen:
